@@ -84,17 +84,19 @@ impl VersionSpec {
     fn split_and_parts(spec: &str) -> Vec<&str> {
         let mut parts = Vec::new();
         let mut current_start = 0;
-        let chars: Vec<char> = spec.chars().collect();
+        // (byte offset, char) pairs: the slices below need byte offsets
+        let chars: Vec<(usize, char)> = spec.char_indices().collect();
         let mut i = 0;
 
         while i < chars.len() {
-            if chars[i] == ' ' {
+            if chars[i].1 == ' ' {
+                let pos = chars[i].0;
                 // Check if this space is part of a range operator or separator
-                let before = &spec[current_start..i].trim();
+                let before = &spec[current_start..pos].trim();
                 if !before.is_empty() {
                     // Check if this might be a hyphen range separator " - "
                     // Look ahead for " - " pattern
-                    if i + 2 < chars.len() && chars[i + 1] == '-' && chars[i + 2] == ' ' {
+                    if i + 2 < chars.len() && chars[i + 1].1 == '-' && chars[i + 2].1 == ' ' {
                         // This is a hyphen range, skip to after " - "
                         i += 3;
                         continue;
@@ -102,7 +104,7 @@ impl VersionSpec {
 
                     // This is a space separator for AND
                     parts.push(*before);
-                    current_start = i + 1;
+                    current_start = pos + 1;
                 }
             }
             i += 1;
